@@ -78,6 +78,7 @@ class C06(runner.Check):
         'epoch': simclock.EPOCH + rng.randrange(10**6),
     }
     cfg['id_rot'] = rng.randrange(len(O.STUDY_IDS))  # which adversarial id the main study carries
+    cfg['tz_h'] = rng.choice([0, 0, 9, -8, 5.5])  # the host's local time zone (hours east of UTC)
     faults = []
     for _ in range(rng.choice([1, 1, 2])):
       site = rng.choice(['suggest', 'suggest', 'suggest', 'early_stop'])
@@ -150,7 +151,7 @@ class C06(runner.Check):
   def run(self, plan):
     res = runner.Result()
     cfg = plan['cfg']
-    clk = simclock.SimClock(epoch=cfg.get('epoch', simclock.EPOCH))
+    clk = simclock.SimClock(epoch=cfg.get('epoch', simclock.EPOCH), tz_offset=3600.0 * cfg.get('tz_h', 0))
     ent = simclock.Entropy(plan.get('entropy', 0))
     net = simnet.Net(clk)
     net.method_faults = [dict(f) for f in plan.get('net_faults', [])]
